@@ -79,7 +79,7 @@ SPEC = dict(
     level_note="Proved about the hand-written model; model-to-code tie is differential (every policy x every cut point, pairs and triples "
                "of attempts). The four former findings (legacy login, bind2Bound leak, see-other-host inside a session / over TLS) are fixed "
                "in the tree (7771c2d, 7a677f2, e363fe9, 7c60ff5, a739aa9); their witnesses are replayed first. A white space keep-alive used to end the connection "
-               "even inside an established session (C10:whitespace-keepalive-ends-connection, fixed by fa23804; theorem "
+               "even inside an established session (C10:whitespace-keepalive-ends-connection, fixed by 8d68c05; theorem "
                "whitespace_keepalive_is_ignored, witness replayed).",
     design_ref="5.10",
     technique="Lean 4 proofs over all event histories + model/implementation correspondence against a scripted, cut-at-every-point server",
